@@ -195,7 +195,85 @@ static int nested(void) {
     printf("OK nested\n"); return 0;
 }
 
+
+/* handoff: ONE operation at a time, each made by one of two long-lived threads (chosen at random), on one thread-safe list or
+   vector; the same operations are made by the main thread alone on a second container.  Every answer must be the same: no
+   schedule is involved, only the fact that consecutive operations come from different threads (state kept per thread or per
+   call site instead of in the container shows here).  usage: h_conc handoff <0 list | 1 vector> <ops> <seed> */
+static pthread_mutex_t ho_m = PTHREAD_MUTEX_INITIALIZER; static pthread_cond_t ho_c = PTHREAD_COND_INITIALIZER;
+static int ho_turn = -1, ho_quit, ho_kind, ho_op; static long ho_arg, ho_val, ho_res; static void *ho_cont;
+static long ho_apply(void *c, int kindv, int op, long idx, long val) {
+    long r = -7;
+    if (kindv == 0) { qlist_t *l = c; long *p;
+        switch (op) {
+        case 0: r = l->addlast(l, &val, sizeof val); break;
+        case 1: r = l->addfirst(l, &val, sizeof val); break;
+        case 2: r = l->addat(l, (int)idx, &val, sizeof val); break;
+        case 3: p = l->getat(l, (int)idx, NULL, true); r = p ? *p : -1; free(p); break;
+        case 4: p = l->popat(l, (int)idx, NULL); r = p ? *p : -1; free(p); break;
+        case 5: r = l->removeat(l, (int)idx); break;
+        case 6: p = l->popfirst(l, NULL); r = p ? *p : -1; free(p); break;
+        case 7: p = l->poplast(l, NULL); r = p ? *p : -1; free(p); break;
+        case 8: r = (long)l->size(l); break;
+        case 9: l->reverse(l); r = 0; break;
+        default: p = l->getat(l, (int)idx, NULL, false); r = p ? *p : -1; break;
+        }
+    } else { qvector_t *v = c; long *p;
+        switch (op) {
+        case 0: r = v->addlast(v, &val); break;
+        case 1: r = v->addfirst(v, &val); break;
+        case 2: r = v->addat(v, (int)idx, &val); break;
+        case 3: p = v->getat(v, (int)idx, true); r = p ? *p : -1; free(p); break;
+        case 4: p = v->popat(v, (int)idx); r = p ? *p : -1; free(p); break;
+        case 5: r = v->removeat(v, (int)idx); break;
+        case 6: p = v->popfirst(v); r = p ? *p : -1; free(p); break;
+        case 7: p = v->poplast(v); r = p ? *p : -1; free(p); break;
+        case 8: r = (long)v->size(v); break;
+        case 9: v->reverse(v); r = 0; break;
+        default: p = v->getat(v, (int)idx, false); r = p ? *p : -1; break;
+        }
+    }
+    return r;
+}
+static void *ho_worker(void *p) {
+    int me = (int)(long)p;
+    pthread_mutex_lock(&ho_m);
+    for (;;) {
+        while (ho_turn != me && !ho_quit) pthread_cond_wait(&ho_c, &ho_m);
+        if (ho_quit) break;
+        ho_res = ho_apply(ho_cont, ho_kind, ho_op, ho_arg, ho_val);
+        ho_turn = -1; pthread_cond_broadcast(&ho_c);
+    }
+    pthread_mutex_unlock(&ho_m);
+    return NULL;
+}
+static int handoff(int kindv, int nops, unsigned sd) {
+    void *ref; ho_kind = kindv;
+    if (kindv == 0) { ho_cont = qlist(QLIST_THREADSAFE); ref = qlist(QLIST_THREADSAFE); }
+    else { ho_cont = qvector(2, sizeof(long), QVECTOR_THREADSAFE | QVECTOR_RESIZE_DOUBLE); ref = qvector(2, sizeof(long), QVECTOR_THREADSAFE | QVECTOR_RESIZE_DOUBLE); }
+    pthread_t th[2]; for (long w = 0; w < 2; w++) pthread_create(&th[w], NULL, ho_worker, (void *)w);
+    unsigned rs = sd * 2654435761u + 17; long n = 0; int bad = 0; char msg[200] = "";
+    for (int i = 0; i < nops && !bad; i++) {
+        int op = rnd(&rs) % 11; if (n < 6 && rnd(&rs) % 2) op = rnd(&rs) % 3;      /* keep some elements in it */
+        long idx = (long)(rnd(&rs) % 9) - 1, val = 1000 + i; int w = rnd(&rs) % 2;
+        errno = 0;
+        pthread_mutex_lock(&ho_m);
+        ho_op = op; ho_arg = idx; ho_val = val; ho_turn = w; pthread_cond_broadcast(&ho_c);
+        while (ho_turn != -1) pthread_cond_wait(&ho_c, &ho_m);
+        long got = ho_res;
+        pthread_mutex_unlock(&ho_m);
+        long want = ho_apply(ref, kindv, op, idx, val);
+        n = kindv == 0 ? (long)((qlist_t *)ref)->size(ref) : (long)((qvector_t *)ref)->size(ref);
+        if (got != want) { bad = 1; snprintf(msg, sizeof msg, "operation %d (op %d index %ld by thread %d) answered %ld, one thread alone gets %ld", i, op, idx, w, got, want); }
+    }
+    pthread_mutex_lock(&ho_m); ho_quit = 1; pthread_cond_broadcast(&ho_c); pthread_mutex_unlock(&ho_m);
+    for (int w = 0; w < 2; w++) pthread_join(th[w], NULL);
+    if (bad) { printf("FAIL handoff %s: %s\n", kindv ? "vector" : "list", msg); return 1; }
+    printf("OK handoff\n"); return 0;
+}
+
 int main(int argc, char **argv) {
+    if (argc > 4 && !strcmp(argv[1], "handoff")) return handoff(atoi(argv[2]), atoi(argv[3]), (unsigned)atoi(argv[4]));
     if (argc > 1 && !strcmp(argv[1], "contend")) return contend();
     if (argc > 1 && !strcmp(argv[1], "nested")) return nested();
     if (argc > 4 && !strcmp(argv[1], "bounded")) return bounded(atoi(argv[2]), atoi(argv[3]), atoi(argv[4]));
